@@ -16,7 +16,7 @@ theorem C11_maxTok (hW : World P cfg env G inp) {n cr evs o s'}
     (hfind : P.find n = some cr) (hev : Eval G cfg.rho inp (.name n) 0 .fail evs)
     (hrun : Exec P cfg inp cr 0 St.init Frame.empty (o, s')) :
     o = .ret false ∧ s'.maxTok = evs.foldl updTok zeroTok := by
-  have h := R_rule_all hW hfind hev rfl (Nat.zero_le _) (by simp [St.init]) (by simp [St.init]) hrun
+  have h := R_rule_all hW hfind hev rfl (Nat.zero_le _) (by simp [St.init]) memoOK_init hrun
   exact ⟨h.1, by simpa [St.init] using h.2.2.2.2.2.1⟩
 
 /-- What that fold is: the zero token if no non-empty token was attempted, otherwise an attempted
